@@ -549,6 +549,74 @@ pub fn run(tier: Tier) -> i32 {
     rep.sample(json!({"leg": "text-positioning", "doc": gdocs[gdocs.len() / 2].0}));
     rep.absorb("text-positioning", st);
 
+    // ---- (h) magnitudes: coordinates as large as maps / CAD exports use, next to small sizes
+    let large: &[&str] = &["30000.5", "100000.123", "500000.25", "1234567.891", "16777217", "4e9", "-30000.5"];
+    let small: &[&str] = &["0.3", "0.35", "10", "5"];
+    let mut mdocs: Vec<(String, String)> = Vec::new();
+    for (el, nums, base) in ELEMENTS {
+        for a in nums.iter() {
+            for (li, l) in large.iter().enumerate() {
+                for (si, sm) in small.iter().enumerate() {
+                    // the chosen attribute is large, every other numeric attribute of the base is the small value
+                    let mut attrs: Vec<String> = base.iter().filter(|(k, _)| k != a).map(|(k, v)| if nums.contains(k) { format!("{k}=\"{sm}\"") } else { format!("{k}=\"{v}\"") }).collect();
+                    attrs.push(format!("{a}=\"{l}\""));
+                    mdocs.push((wrap(el, &attrs.join(" "), true), format!("{el}/{a}/l{li}s{si}")));
+                }
+            }
+        }
+    }
+    let st = run_space(mdocs.len(), |i| {
+        let mut r = check(&mdocs[i].0, "magnitude", &mdocs[i].1);
+        if let Some(v) = r.violation.as_mut() {
+            // Open finding: positions and sizes are recomputed in f32. A case belongs to it only if the document is
+            // accepted and EVERY differing attribute is numeric and within f32 resolution at the element's largest magnitude.
+            if v.clause == "not-preserved" {
+                if let Outcome::Ok(o) = run_str(&mdocs[i].0, &Cfg::plain()) {
+                    if let (Ok(ti), Ok(to)) = (xmlref::parse_tree(mdocs[i].0.as_bytes(), Mode::Document), xmlref::parse_tree(&o, Mode::Document)) {
+                        fn flat<'a>(n: &'a [Node], out: &mut Vec<&'a Element>) {
+                            for x in n {
+                                if let Node::El(e) = x {
+                                    out.push(e);
+                                    flat(&e.children, out);
+                                }
+                            }
+                        }
+                        let (mut ei, mut eo) = (Vec::new(), Vec::new());
+                        flat(&ti, &mut ei);
+                        flat(&to, &mut eo);
+                        let eo: Vec<&Element> = eo.into_iter().filter(|e| e.name != "style" && !(e.name == "defs" && e.children.is_empty())).collect();
+                        let mut only_precision = ei.len() == eo.len();
+                        if only_precision {
+                            for (a, b) in ei.iter().zip(eo.iter()).skip(1) {
+                                if a.name != b.name || a.attrs.len() != b.attrs.len() {
+                                    only_precision = false;
+                                    break;
+                                }
+                                let mag = a.attrs.iter().filter_map(|(_, v)| parse_number(v)).fold(1.0f64, |m, x| m.max(x.abs()));
+                                for (k, v) in &a.attrs {
+                                    match b.attr(k) {
+                                        Some(o) if same_value(v, o) => {}
+                                        Some(o) => match (parse_number(v), parse_number(o)) {
+                                            (Some(x), Some(y)) if (x - y).abs() <= mag * 4.0 / 8388608.0 => {}
+                                            _ => only_precision = false,
+                                        },
+                                        None => only_precision = false,
+                                    }
+                                }
+                            }
+                        }
+                        if only_precision {
+                            v.signature = "C04/magnitude/f32-precision".into();
+                        }
+                    }
+                }
+            }
+        }
+        r
+    });
+    rep.sample(json!({"leg": "magnitude", "doc": mdocs[mdocs.len() / 2].0}));
+    rep.absorb("magnitude", st);
+
     // ---- (d) the documented reinterpretation: character-only content becomes generated text
     let tdocs = [
         ("<svg><text x=\"3\" y=\"4\">hello</text></svg>", "text", "hello"),
